@@ -17,7 +17,7 @@ EXPLANATION = (
     "dispatcher after a background panic are not decided.")
 ASSUMPTIONS = ["rayon re-raises a job panic in the caller after sibling jobs ended", "atomic_refcell guards release in Drop during unwinding"]
 TRUSTED = ["rustc nightly MIR construction", "shred-facts driver", "shredlint analyses"]
-TECHNIQUE = 'static: zero-count inventories with positive examples (catch_unwind, guard leaks), structural-intactness scan of the dispatch cone, lock-kind inventory, FANOUT coverage for the next dispatch'
+TECHNIQUE = 'static: zero-count inventories with positive examples (catch_unwind, guard leaks), structural-intactness scan of the dispatch cone and of the dispatch entry points evaluated with their helpers in place, lock-kind inventory, FANOUT coverage for the next dispatch'
 RULE_TEXT = "one obligation per body of the dispatch cone, per guard type, per lock site, per zero-count class (positive examples in the probe crate, thorough)"
 
 ONCE_IDS = ("Stage::execute", "Stage::execute_seq", "SendDispatcher::dispatch", "SendDispatcher::dispatch_par", "SendDispatcher::dispatch_seq",
